@@ -2,6 +2,7 @@ package harness
 
 import (
 	"encoding/json"
+	"fmt"
 	"os"
 	"testing"
 )
@@ -11,10 +12,15 @@ import (
 func TestCorpusRef(t *testing.T) {
 	idx := int(envInt("VERIF_CORPUS_INDEX", -1))
 	outPath := os.Getenv("VERIF_CORPUS_OUT")
-	if idx < 0 || outPath == "" {
+	if idx == -1 || outPath == "" {
 		t.Skip("driver-only")
 	}
 	buildCorpus(t)
+	if idx == -2 {
+		// the driver asks how many programs there are
+		_ = os.WriteFile(outPath, []byte(fmt.Sprintf("{\"size\": %d}", len(corpus))), 0o644)
+		return
+	}
 	if idx >= len(corpus) {
 		t.Fatalf("VERIF-INTERNAL corpus has %d programs, index %d asked", len(corpus), idx)
 	}
